@@ -104,4 +104,55 @@ theorem interrupted_walk_finishes {c : Cfg} {s : State} (ok : CfgOK c) (h : Reac
 
 example : (run (Ex.chain2 false) (init (Ex.chain2 false)) Ex.intRun).isSome = true := by decide
 
+/-- Exit status over the whole life cycle of `grog build` / `grog test` / `grog run` (loading, selection,
+    waiting for the workspace lock, execution, and the run phase of `grog run`): once the context is
+    cancelled, the only step that ends the process with status 0 is the end of an execution phase in which
+    the walk had already finished through the wait group without a failure — and never for `grog run`,
+    whose binary is refused or killed. In particular an interrupt while waiting for the lock or while the
+    binary of `grog run` runs always gives a non-zero exit status. -/
+theorem exit_nonzero_all_phases (cmd : Life.Cmd) {s s' : Life.State} {e : Life.Ev}
+    (hc : s.ctx = true) (hs : Life.step cmd s e = some s') (h0 : s'.phase = .exited 0) :
+    s.phase = .executing ∧ e = .executed (.finished false) ∧ cmd ≠ .run := by
+  obtain ⟨ph, cx⟩ := s
+  simp only at hc; subst hc
+  cases e <;> simp only [Life.step] at hs
+  case cancel => cases ph <;> simp at hs
+  case loadDone err =>
+    split at hs
+    · cases err <;> simp at hs <;> (subst hs; simp at h0)
+    · simp at hs
+  case selected => split at hs <;> simp at hs; subst hs; simp at h0
+  case lockAcquired => split at hs <;> simp at hs; subst hs; simp at h0
+  case lockGaveUp => split at hs <;> simp at hs; subst hs; simp at h0
+  case executed r =>
+    split at hs
+    · rename_i hp
+      cases r with
+      | viaCtx => simp at hs; subst hs; simp at h0
+      | finished f =>
+        cases f
+        · simp at hs; subst hs
+          by_cases hr : cmd = .run
+          · simp [hr] at h0
+          · exact ⟨hp, rfl, hr⟩
+        · simp at hs; subst hs; simp at h0
+    · simp at hs
+  case binStarted =>
+    split at hs
+    · rename_i g; simp at g
+    · simp at hs
+  case binRefused => split at hs <;> simp at hs; subst hs; simp at h0
+  case binExit code => split at hs <;> simp at hs; subst hs; simp at h0
+
+/-- the interrupted phases named by the property text, one by one -/
+example : Life.step .build ⟨.lockWait, true⟩ .lockGaveUp = some ⟨.exited 1, true⟩ := by decide
+example : Life.step .run ⟨.running, true⟩ (.binExit 0) = some ⟨.exited 1, true⟩ := by decide
+example : Life.step .run ⟨.starting, true⟩ .binRefused = some ⟨.exited 1, true⟩ := by decide
+example : Life.step .test ⟨.executing, true⟩ (.executed .viaCtx) = some ⟨.exited 1, true⟩ := by decide
+
+/-- and under a cancelled context the binary of `grog run` is never started -/
+theorem run_binary_not_started_after_cancel (cmd : Life.Cmd) (s : Life.State) (hc : s.ctx = true) :
+    Life.step cmd s .binStarted = none := by
+  simp [Life.step, hc]
+
 end Grog.C18
